@@ -205,7 +205,7 @@ impl Check for C15 {
         let q = tier == Tier::Quick;
         vec![
             Phase { name: "boundary lattice (every listed integer x every position x every encoding)", cases: lattice().len() as u64, exhaustive: true },
-            Phase { name: "log-uniform samples over [-2^64, 2^64-1] x every position x every encoding", cases: scale(if q { 4000 } else { 400000 }, b), exhaustive: false },
+            Phase { name: "log-uniform samples over [-2^64, 2^64-1] x every position x every encoding", cases: scale(if q { 16000 } else { 400000 }, b), exhaustive: false },
         ]
     }
     fn run_case(&self, ctx: &mut Ctx, phase: usize, idx: u64) {
